@@ -449,6 +449,32 @@ theorem C10_retain_pred_crash_repaired_by_retain (k : Kind) {s : Store P} (h : s
     (C10_retain_pred_crash_twf h f hj) (C10_retain_pred_crash_nodup h f hf j) g hg
   ⟨q', h1, h2, h4⟩
 
+/-- the constructors do not look at the old state at all: on ANY queue (tables-only or worse) `From<Vec>`,
+`FromIterator` (legal `size_hint`) and `Deserialize` (any announced length) run without fault and return a well-formed
+queue -/
+theorem C10_tables_only_constructors_wf (q : Q P) :
+    (∀ xs, ∃ q', step q (.fromVec xs) = .ok (q', .unit) ∧ q'.s.WF) ∧
+    (∀ lo xs, (Op.fromIter lo xs : Op P).Legal → ∃ q', step q (.fromIter lo xs) = .ok (q', .unit) ∧ q'.s.WF) ∧
+    (∀ hint xs, ∃ q', step q (.deserialize hint xs) = .ok (q', .unit) ∧ q'.s.WF) := by
+  obtain ⟨kind, s⟩ := q
+  refine ⟨fun xs => ?_, fun lo xs hl => ?_, fun hint xs => ?_⟩
+  · cases kind
+    · obtain ⟨s', h1, h2, _⟩ := MaxQ.fromVec_safe xs
+      exact ⟨⟨.pq, s'⟩, by show (MaxQ.fromVec xs >>= _) = _; rw [h1]; rfl, h2⟩
+    · obtain ⟨s', h1, h2, _⟩ := DQ.fromVec_safe xs
+      exact ⟨⟨.dpq, s'⟩, by show (DQ.fromVec xs >>= _) = _; rw [h1]; rfl, h2⟩
+  · have hlo : lo < capLimit := Nat.lt_of_le_of_lt hl.1 hl.2
+    cases kind
+    · obtain ⟨s', h1, h2, _⟩ := MaxQ.fromIter_safe lo xs hlo
+      exact ⟨⟨.pq, s'⟩, by show (MaxQ.fromIter lo xs >>= _) = _; rw [h1]; rfl, h2⟩
+    · obtain ⟨s', h1, h2, _⟩ := DQ.fromIter_safe lo xs hlo
+      exact ⟨⟨.dpq, s'⟩, by show (DQ.fromIter lo xs >>= _) = _; rw [h1]; rfl, h2⟩
+  · cases kind
+    · obtain ⟨s', h1, h2, _⟩ := MaxQ.deserialize_safe hint xs
+      exact ⟨⟨.pq, s'⟩, by show (MaxQ.deserialize hint xs >>= _) = _; rw [h1]; rfl, h2⟩
+    · obtain ⟨s', h1, h2, _⟩ := DQ.deserialize_safe hint xs
+      exact ⟨⟨.dpq, s'⟩, by show (DQ.deserialize hint xs >>= _) = _; rw [h1]; rfl, h2⟩
+
 end Repair
 
 /-! ## Non-vacuity: a five-element queue, a predicate that panics at the third element -/
@@ -556,3 +582,4 @@ end PQ
 #print axioms PQ.C10_tables_only_retainMut_wf
 #print axioms PQ.C10_tables_only_retain_repairs
 #print axioms PQ.C10_retain_pred_crash_repaired_by_retain
+#print axioms PQ.C10_tables_only_constructors_wf
